@@ -3,6 +3,7 @@ From V.C10 Require Import Model.
 From V.Mgr Require Import DialShape DialShapeProofs Model Caps Ledger LedgerInv.
 From V.Tcp Require Model Proofs Theorems Variants VariantTheorems Once Settle.
 From V.C05 Require TcpCompose TrCompose.
+From V.C05 Require TwoCompose TwoEvents TwoCmd TwoTheorems.
 Import ListNotations.
 Open Scope N_scope.
 From V.C05 Require Import Properties.
@@ -592,3 +593,105 @@ Check (C05_sysT_transport_side_is_its_model :
   Tg = TCP \/ Tg = WS ->
   (TrCompose.s_t (TrCompose.deliver Tg L k st e), TrCompose.s_tg (TrCompose.deliver Tg L k st e)) =
   TrCompose.xrun (TrCompose.transport_of Tg) (TrCompose.s_t st) (TrCompose.s_tg st) (TrCompose.real_calls Tg L k st e)).
+Check (C05_sys2_feasible :
+  forall L : limits,
+  installed L TCP = true /\ installed L WS = true ->
+  forall xs : list TwoCompose.xev,
+  TwoCompose.xfeasible L TwoCompose.sys0 xs ->
+  feasible L init g0 (TwoCompose.sys_trace L TwoCompose.sys0 xs) /\
+  (TwoCompose.s_m (TwoCompose.sys_run L TwoCompose.sys0 xs), TwoCompose.s_g (TwoCompose.sys_run L TwoCompose.sys0 xs)) =
+  lrun L init g0 (TwoCompose.sys_trace L TwoCompose.sys0 xs)).
+Check (C05_sys2_step :
+  forall L : limits,
+  installed L TCP = true /\ installed L WS = true ->
+  forall (st : TwoCompose.sys) (x : TwoCompose.xev),
+  TwoCompose.Inv L st ->
+  TwoCompose.xok L st x ->
+  feasible L (TwoCompose.s_m st) (TwoCompose.s_g st) (TwoCompose.sys_evs L st x) /\ TwoCompose.Inv L (TwoCompose.sys_step L st x)).
+Check (C05_sys2_at_most_one_outcome :
+  forall L : limits,
+  installed L TCP = true /\ installed L WS = true ->
+  forall xs : list TwoCompose.xev,
+  TwoCompose.xfeasible L TwoCompose.sys0 xs -> NoDup (terminals L init (TwoCompose.sys_trace L TwoCompose.sys0 xs))).
+Check (C05_sys2_no_silence :
+  forall L : limits,
+  installed L TCP = true /\ installed L WS = true ->
+  forall xs : list TwoCompose.xev,
+  TwoCompose.xfeasible L TwoCompose.sys0 xs ->
+  let st := TwoCompose.sys_run L TwoCompose.sys0 xs in
+  quiescent (TwoCompose.s_m st) (TwoCompose.s_g st) ->
+  forall (c : N) (p : peer),
+  lookup c (g_att (TwoCompose.s_g st)) = Some p ->
+  In c (g_done (TwoCompose.s_g st)) \/ In c (g_super (TwoCompose.s_g st)) /\ In p (g_rep (TwoCompose.s_g st)) \/ In c (g_limrej (TwoCompose.s_g st))).
+Check (C05_sys2_no_wedge :
+  forall L : limits,
+  installed L TCP = true /\ installed L WS = true ->
+  forall xs : list TwoCompose.xev,
+  TwoCompose.xfeasible L TwoCompose.sys0 xs ->
+  let st := TwoCompose.sys_run L TwoCompose.sys0 xs in
+  quiescent (TwoCompose.s_m st) (TwoCompose.s_g st) -> forall p : peer, settled (state_of (TwoCompose.s_m st) p)).
+Check (C05_sys2_no_stuck :
+  forall L : limits,
+  installed L TCP = true /\ installed L WS = true ->
+  forall (xs : list TwoCompose.xev) (x : TwoCompose.xev) (s : N),
+  TwoCompose.xfeasible L TwoCompose.sys0 (xs ++ [x]) ->
+  forall (e : ev) (m : mgr) (g : ghost) (es2 : list ev),
+  TwoCompose.sys_evs L (TwoCompose.sys_run L TwoCompose.sys0 xs) x = e :: es2 ->
+  (m, g) = (TwoCompose.s_m (TwoCompose.sys_run L TwoCompose.sys0 xs), TwoCompose.s_g (TwoCompose.sys_run L TwoCompose.sys0 xs)) ->
+  ~ In (Stuck s) (snd (step L m e))).
+Check (C05_sys2_quiescent :
+  forall L : limits,
+  installed L TCP = true /\ installed L WS = true ->
+  forall xs : list TwoCompose.xev,
+  TwoCompose.xfeasible L TwoCompose.sys0 xs ->
+  let st := TwoCompose.sys_run L TwoCompose.sys0 xs in
+  quiescent (TwoCompose.s_m st) (TwoCompose.s_g st) <->
+  (forall u : tr,
+   TwoCompose.tagged u ->
+   TwoCompose.TM.g_open (TwoCompose.t_g (TwoCompose.side st u)) = [] /\
+   TwoCompose.TM.g_neg (TwoCompose.t_g (TwoCompose.side st u)) = []) /\
+  accepting (TwoCompose.s_m st) = []).
+Check (C05_sys2_owed_is_pending :
+  forall L : limits,
+  installed L TCP = true /\ installed L WS = true ->
+  forall (xs : list TwoCompose.xev) (c : conn),
+  TwoCompose.xfeasible L TwoCompose.sys0 xs ->
+  let st := TwoCompose.sys_run L TwoCompose.sys0 xs in
+  owed (TwoCompose.s_g st) c ->
+  exists u : tr,
+    TwoCompose.tagged u /\
+    ((exists (f : N) (rem : list (N * TwoCompose.TM.expect)),
+        TwoCompose.TM.lookup f (TwoCompose.TM.praw (TwoCompose.t_s (TwoCompose.side st u))) = Some c /\
+        TwoCompose.TM.lookup f (TwoCompose.TM.attempts (TwoCompose.t_s (TwoCompose.side st u))) = Some rem /\
+        ~ In f (TwoCompose.TM.aborted (TwoCompose.t_s (TwoCompose.side st u)))) \/
+     (exists (f : N) (k : TwoCompose.TM.kind),
+        TwoCompose.TM.lookup f (TwoCompose.TM.pconn (TwoCompose.t_s (TwoCompose.side st u))) = Some (c, k) /\
+        TwoCompose.TM.is_inb k = false))).
+Check (C05_sys2_progress :
+  forall L : limits,
+  installed L TCP = true /\ installed L WS = true ->
+  forall (xs : list TwoCompose.xev) (c : conn),
+  TwoCompose.xfeasible L TwoCompose.sys0 xs ->
+  let st := TwoCompose.sys_run L TwoCompose.sys0 xs in
+  owed (TwoCompose.s_g st) c ->
+  exists (u : tr) (n : TwoCompose.TM.ev),
+    TwoCompose.tagged u /\
+    TwoCompose.TM.polls n = true /\
+    TwoCompose.xfeasible L TwoCompose.sys0 (xs ++ [TwoCompose.XNet u n]) /\
+    (exists e : ev, In e (TwoCompose.sys_evs L st (TwoCompose.XNet u n)) /\ TrCompose.answers c e)).
+Check (C05_sys2_counters_in_step :
+  forall L : limits,
+  installed L TCP = true /\ installed L WS = true ->
+  forall xs : list TwoCompose.xev,
+  TwoCompose.xfeasible L TwoCompose.sys0 xs ->
+  let st := TwoCompose.sys_run L TwoCompose.sys0 xs in
+  (forall u : tr, TwoCompose.tagged u -> TwoCompose.TM.ctr (TwoCompose.t_s (TwoCompose.side st u)) = next_conn (TwoCompose.s_m st)) /\
+  (forall c : N, In c (TwoCompose.TM.g_neg (TwoCompose.t_g (TwoCompose.side st TCP))) ->
+                 ~ In c (TwoCompose.TM.g_neg (TwoCompose.t_g (TwoCompose.side st WS)))) /\
+  (forall c : N, In c (TwoCompose.TM.g_inb (TwoCompose.t_g (TwoCompose.side st TCP))) ->
+                 ~ In c (TwoCompose.TM.g_inb (TwoCompose.t_g (TwoCompose.side st WS))))).
+Check (C05_sys2_sides_are_their_models :
+  forall (L : limits) (src : option tr) (k : tr -> nat) (st : TwoCompose.sys) (e : ev) (u : tr),
+  TwoCompose.tagged u ->
+  TwoCompose.side (TwoCompose.deliver L src k st e) u =
+  TwoTheorems.xexec (TrCompose.transport_of u) (TwoCompose.side st u) (TwoTheorems.real_calls L src k u (TwoCompose.s_m st) e)).
